@@ -536,6 +536,16 @@ impl Client {
     }
 }
 
+thread_local! { static SLOW: std::cell::RefCell<String> = const { std::cell::RefCell::new(String::new()) }; }
+struct StepTimer(std::time::Instant, usize);
+impl Drop for StepTimer {
+    fn drop(&mut self) {
+        if std::env::var("VERIF_C25_SLOW").is_ok() && self.0.elapsed().as_millis() > 300 {
+            eprintln!("slow step {} ms (after `{}`)", self.0.elapsed().as_millis(), SLOW.with(|c| c.borrow().clone()));
+        }
+    }
+}
+
 /// what the harness remembers about the text that filled a cache entry
 #[derive(Clone, Debug)]
 struct Stored {
@@ -573,6 +583,10 @@ fn gen_shape(t: &mut Tape, w: &World) -> QShape {
     let x = (h + 1 + t.below(nt - 1)) % nt;
     let y = t.below(nt);
     let nv = w.views.len();
+    // a third table different from h and x (inner and outer scopes must not share column names:
+    // the engine resolves ambiguous unqualified columns through a randomly seeded HashMap)
+    let z = if nt >= 3 { (0..nt).find(|i| *i != h && *i != x) } else { None };
+    let views_off_h: Vec<usize> = (0..nv).filter(|v| w.views[*v].base != h).collect();
     let k = t.weighted(&[
         4,                         // 0 plain
         1,                         // 1 literal item
@@ -582,11 +596,11 @@ fn gen_shape(t: &mut Tape, w: &World) -> QShape {
         2,                         // 5 exists
         1,                         // 6 quantified
         2,                         // 7 join
-        1,                         // 8 join-on subquery
+        if z.is_some() { 1 } else { 0 }, // 8 join-on subquery
         2,                         // 9 cte
         1,                         // 10 cte in subquery
         if nv > 0 { 4 } else { 0 }, // 11 view
-        if nv > 0 { 2 } else { 0 }, // 12 view in subquery
+        if !views_off_h.is_empty() { 2 } else { 0 }, // 12 view in subquery
         2,                         // 13 set op
         2,                         // 14 derived
         1,                         // 15 order by subquery
@@ -598,7 +612,7 @@ fn gen_shape(t: &mut Tape, w: &World) -> QShape {
         1,                         // 21 between
         1,                         // 22 like
         1,                         // 23 is null
-        1,                         // 24 nested
+        if z.is_some() { 1 } else { 0 }, // 24 nested
         1,                         // 25 quoted identifiers
     ]);
     match k {
@@ -610,11 +624,11 @@ fn gen_shape(t: &mut Tape, w: &World) -> QShape {
         5 => QShape::Exists { h, x },
         6 => QShape::Quant { h, x },
         7 => QShape::Join { h, x },
-        8 => QShape::JoinOnSub { h, j: x, x: y },
+        8 => QShape::JoinOnSub { h, j: x, x: z.unwrap_or(y) },
         9 => QShape::Cte { x },
         10 => QShape::CteInSub { h, x },
         11 => QShape::View { v: t.below(nv) },
-        12 => QShape::ViewInSub { h, v: t.below(nv) },
+        12 => QShape::ViewInSub { h, v: views_off_h[t.below(views_off_h.len())] },
         13 => QShape::SetOp { h, x, x_left: t.chance(1, 2), op: t.below(3) as u8 },
         14 => QShape::Derived { x },
         15 => QShape::OrderBySub { h, x },
@@ -626,7 +640,7 @@ fn gen_shape(t: &mut Tape, w: &World) -> QShape {
         21 => QShape::BetweenSub { h, x },
         22 => QShape::LikeSub { h, x },
         23 => QShape::IsNullSub { h, x },
-        24 => QShape::Nested { h, x, y },
+        24 => QShape::Nested { h, x, y: z.unwrap_or(y) },
         _ => QShape::Quoted,
     }
 }
@@ -656,8 +670,8 @@ impl Check for C25 {
     }
     fn cases(&self, tier: Tier) -> u64 {
         match tier {
-            Tier::Quick => 20_000,
-            Tier::Thorough => 500_000,
+            Tier::Quick => 8_000,
+            Tier::Thorough => 200_000,
         }
     }
     fn tape_len(&self, _t: Tier) -> usize {
@@ -799,6 +813,11 @@ impl Check for C25 {
         }
 
         for (si, step) in case.steps.iter().enumerate() {
+            let t_step = std::time::Instant::now();
+            let _guard = StepTimer(t_step, log.len());
+            if let Some(l) = log.last() {
+                SLOW.with(|c| *c.borrow_mut() = l.clone());
+            }
             match step {
                 Step::Write(wr) => {
                     for q in wr.sql() {
@@ -822,6 +841,8 @@ impl Check for C25 {
                     let text = qs.text(w, *variant, spell);
                     log.push(format!("/* read  */ {}", text.replace('\n', "\\n").replace('\t', "\\t")));
                     obs.sub_evals += 1;
+                    let shape_name = format!("{:?}", qs.shape);
+                    obs.class(&format!("shape:{}", shape_name.split(|c: char| !c.is_alphanumeric()).next().unwrap_or("")));
                     let sig = QuerySignature::from_sql(&text).hash();
                     let seen = texts_of_sig.entry(sig).or_default();
                     if !seen.contains(&text) {
@@ -890,7 +911,7 @@ impl Check for C25 {
                             };
                             // foreign: the entry was filled by a text with a different meaning
                             // two pool entries may describe the same query
-                            let same_spec = s.spec == *spec || (case.specs[s.spec].shape == qs.shape && case.specs[s.spec].group % GROUPS.len() == qs.group % GROUPS.len());
+                            let same_spec = s.spec == *spec || (case.specs[s.spec].shape == qs.shape && (qs.shape == QShape::Quoted || case.specs[s.spec].group % GROUPS.len() == qs.group % GROUPS.len()));
                             let same_meaning = same_spec && s.variant == *variant && (s.comment == 2) == (comment == 2);
                             let (sig_name, why) = if !same_meaning {
                                 let kind = if !same_spec {
